@@ -105,6 +105,8 @@ where
         let start_pos = self.last_position_written_to_file as usize;
         self.destination.write_all(&buffer[start_pos..])?;
         self.last_position_written_to_file = buffer.position();
+        #[cfg(feature = "verif-hooks")]
+        crate::verif_hooks::sync(crate::verif_hooks::Point::Flushed(self.curr_idx as u32));
         Ok(())
     }
 }
